@@ -175,6 +175,12 @@ theorem parseInt_formatInt (i : Int) (h : inInt64 i = true) : parseInt (formatIn
       simp [h1]
       omega
 
+theorem inInt64_iff (i : Int) : inInt64 i = true ↔ -(2 ^ 63 : Int) ≤ i ∧ i ≤ (2 ^ 63 : Int) - 1 := by
+  simp only [inInt64, minInt64, maxInt64, Bool.and_eq_true]
+  constructor
+  · intro h; exact ⟨of_decide_eq_true h.1, of_decide_eq_true h.2⟩
+  · intro h; exact ⟨decide_eq_true h.1, decide_eq_true h.2⟩
+
 /-- `strconv.ParseUint(strconv.Itoa(n), 0, 8) = n` for a byte -/
 theorem parseUint8_natDigits (n : Nat) (h : n < 256) : parseUint (natDigits n) 8 = .ok n :=
   parseUint_natDigits 8 (by omega) n (by omega)
